@@ -105,6 +105,7 @@ func main() {
 	ill := flag.Bool("ill", false, "ill-typed programs")
 	restore := flag.Bool("restore", false, "tmp/with/defer biased programs")
 	show := flag.Int("show", 0, "print this many generated programs")
+	stream := flag.Bool("stream", false, "boundary-shaped stream builtin programs")
 	flag.Parse()
 	if *genN > 0 {
 		counts := map[string]int{}
@@ -117,6 +118,9 @@ func main() {
 			p := g.Program()
 			if *restore {
 				p = refinterp.NewGen(r, refinterp.GenConfig{IllTyped: *ill}).RestoreProgram()
+			}
+			if *stream {
+				p = refinterp.NewGen(r, refinterp.GenConfig{}).StreamProgram()
 			}
 			if *show > 0 && i < *show {
 				fmt.Printf("---- program %d\n%s\n", i, p.Source())
